@@ -135,7 +135,7 @@ def ref_bin(values, sub):
     return np.array(out)
 
 
-def ref_iterate(f, m, scales, origin, steps, frac, tol):
+def ref_iterate(f, m, scales, origin, steps, frac, tol, exact=False):
     """
     The stopping rule of the statement, pixel by pixel: the binned value at the first sub-size of the schedule whose
     agreement with the previous level (ratio smaller/larger, defined only when the previous value is positive) meets
@@ -160,7 +160,9 @@ def ref_iterate(f, m, scales, origin, steps, frac, tol):
             if prev > 0:
                 ratio = min(prev, cur) / max(prev, cur)
                 ok = ratio >= frac
-                tie = tie or abs(ratio - frac) <= TIE
+                # exact=True: every level value is an exact dyadic number (0/k-valued function, power-of-two sub-sizes), so a ratio
+                # equal to the threshold is not a rounding accident and "meets the accuracy" (>=) is decidable
+                tie = tie or (abs(ratio - frac) <= TIE and not (exact and ratio == frac))
                 if ok and tol is not None and abs(prev - cur) > tol:
                     path.add("fraction_met_abs_tol_not")
             else:
@@ -619,8 +621,11 @@ def run_iterate(ctx, key, m, fam, scales, origin, f, fd, steps, frac, tol, how, 
         grid = aa.Grid2D.from_mask(mask=mask, over_sampling=aa.OverSamplingIterate(
             fractional_accuracy=frac, relative_accuracy=tol, sub_steps=list(steps)))
         call = lambda: getattr(p, how)(grid)
+    exact = fd["kind"] in ("step_int", "mask_bool") and all(int(s_) & (int(s_) - 1) == 0 for s_ in steps) and "zero_at_centres_of_slim_pixels" not in fd
     with np.errstate(all="ignore"):
-        exp, levels, ties, cents, paths, fmax = ref_iterate(f, m, scales, origin, list(steps), frac, tol)
+        exp, levels, ties, cents, paths, fmax = ref_iterate(f, m, scales, origin, list(steps), frac, tol, exact=exact)
+    if exact:
+        ctx.classes["iterate:exact_level_values(ties_at_the_threshold_judged)"] += 1
     W = dict(mask=m, pixel_scales=scales, origin=origin, function=fd, sub_steps=list(steps), fractional_accuracy=frac,
              absolute_tolerance=tol, entry=how)
     ok, res = ctx.guarded("iterate.exception", call)
@@ -669,6 +674,10 @@ def check_iterate(ctx, i):
     j = i // len(FUNC_KINDS)
     steps = sched[j % len(sched)]
     frac = FRACS[(j // len(sched)) % 3]
+    if fd["kind"] in ("step_int", "mask_bool") and all(int(s_) & (int(s_) - 1) == 0 for s_ in steps):
+        # piecewise-constant functions on power-of-two schedules: thresholds that are met EXACTLY (equal levels at accuracy 1.0,
+        # levels 1 and 2 at accuracy 0.5)
+        frac = (1.0, 0.5, 0.75)[j % 3]
     tol = TOLS[int(r.integers(3))]
     how = ("raw", "sampler", "stacked")[int(r.integers(3))]
     run_iterate(ctx, "iterate:%d" % i, m, fam, scales, origin, f, fd, steps, frac, tol, how, ())
